@@ -29,6 +29,25 @@ type c16MergeInput struct {
 	Fault    string `json:"fault"` // none | del-base-blkidx | del-base-blk | del-branch-blk | del-branch-blkidx | get-fails
 	FaultArg int    `json:"faultArg"`
 	Procs    int    `json:"gomaxprocs"`
+	// ConsumerDelayUs: how long after Start() the consumer reaches the merge channel (microseconds).
+	// 0 = at once (the consumer is usually parked on the channel before the first message is ready);
+	// otherwise the merger goroutines are already blocked in their first send when it arrives.
+	ConsumerDelayUs int `json:"consumerDelayUs"`
+	// what the merged table's columns / key have to be (all generated tables share the base's);
+	// filled in by the runner from the generated base table
+	Columns []string `json:"columns"`
+	PK      []string `json:"pk"`
+}
+
+// c16MergeSeen is what the consumer of one merge observed.
+type c16MergeSeen struct {
+	outcome   string
+	conflicts int
+	// as `wrgl merge` does (outputConflicts, the merge GUI): on the first message, which carries the
+	// column comparison, ask the merger for the merged table's columns and key
+	gotColDiff bool
+	columns    []string
+	pk         []string
 }
 
 type getFaultStore struct {
@@ -49,26 +68,31 @@ func (s *getFaultStore) Get(k []byte) ([]byte, error) {
 }
 
 // c16MergeOnce runs one merge to the end of the merge channel and reports how it ended.
-func c16MergeOnce(db objects.Store, tbls []*objects.Table, sums [][]byte) (outcome string, conflicts int) {
+func c16MergeOnce(db objects.Store, tbls []*objects.Table, sums [][]byte, consumerDelay time.Duration) (seen c16MergeSeen) {
 	hs, err := index.NewHashSet(misc.NewBuffer(nil), 0)
 	if err != nil {
-		return "setup-error", 0
+		seen.outcome = "setup-error"
+		return
 	}
+	seen.outcome = "error"
 	collector, err := merge.NewCollector(db, tbls[0], hs)
 	if err != nil {
-		return "error", 0
+		return
 	}
 	buf, err := diff.BlockBufferWithSingleStore(db, tbls)
 	if err != nil {
-		return "error", 0
+		return
 	}
 	m, err := merge.NewMerger(db, collector, buf, 0, tbls[0], tbls[1:], sums[0], sums[1:], logr.Discard())
 	if err != nil {
-		return "error", 0
+		return
 	}
 	ch, err := m.Start()
 	if err != nil {
-		return "error", 0
+		return
+	}
+	if consumerDelay > 0 {
+		time.Sleep(consumerDelay)
 	}
 	// Not 20 s: when one differ ends early (its channel closes — on a read error, or simply because it
 	// is done) mergeTables keeps selecting the closed channel, a busy loop that on one processor leaves
@@ -86,12 +110,18 @@ func c16MergeOnce(db objects.Store, tbls []*objects.Table, sums [][]byte) (outco
 		case mg, ok := <-ch:
 			if !ok {
 				if err := m.Error(); err != nil {
-					return "error", conflicts
+					seen.outcome = "error"
+					return
 				}
-				return "done", conflicts
+				seen.outcome = "done"
+				return
 			}
 			if mg.ColDiff == nil {
-				conflicts++
+				seen.conflicts++
+			} else if !seen.gotColDiff {
+				seen.gotColDiff = true
+				seen.columns = append([]string{}, m.Columns(nil)...)
+				seen.pk = append([]string{}, m.PK()...)
 			}
 		case <-timeout:
 			if os.Getenv("VERIF_DEBUG_STACKS") != "" {
@@ -99,12 +129,14 @@ func c16MergeOnce(db objects.Store, tbls []*objects.Table, sums [][]byte) (outco
 				n := runtime.Stack(buf, true)
 				os.Stderr.Write(buf[:n])
 			}
-			return "hang", conflicts
+			seen.outcome = "hang"
+			return
 		}
 	}
 }
 
 func c16MergeRun(in *c16MergeInput) Res {
+	in.Columns, in.PK = c16Table(0).Columns, c16Table(0).PK
 	old := runtime.GOMAXPROCS(in.Procs)
 	defer runtime.GOMAXPROCS(old)
 	return Guard(func() Res {
@@ -131,7 +163,7 @@ func c16MergeRun(in *c16MergeInput) Res {
 		}
 		// reference outcome, one processor, no fault
 		runtime.GOMAXPROCS(1)
-		refOutcome, refConflicts := c16MergeOnce(db, tbls, sums)
+		ref := c16MergeOnce(db, tbls, sums, 0)
 		runtime.GOMAXPROCS(in.Procs)
 		var store objects.Store = db
 		pick := func(l [][]byte) []byte {
@@ -152,9 +184,17 @@ func c16MergeRun(in *c16MergeInput) Res {
 		case "get-fails":
 			store = &getFaultStore{Store: db, left: in.FaultArg}
 		}
-		outcome, conflicts := c16MergeOnce(store, tbls, sums)
-		return Ok(map[string]interface{}{"outcome": outcome, "conflicts": conflicts,
-			"refOutcome": refOutcome, "refConflicts": refConflicts})
+		got := c16MergeOnce(store, tbls, sums, time.Duration(in.ConsumerDelayUs)*time.Microsecond)
+		strs := func(l []string) []string {
+			if l == nil {
+				return []string{}
+			}
+			return l
+		}
+		return Ok(map[string]interface{}{"outcome": got.outcome, "conflicts": got.conflicts,
+			"refOutcome": ref.outcome, "refConflicts": ref.conflicts,
+			"gotColDiff": got.gotColDiff, "columns": strs(got.columns), "pk": strs(got.pk),
+			"refGotColDiff": ref.gotColDiff, "refColumns": strs(ref.columns), "refPK": strs(ref.pk)})
 	})
 }
 
@@ -170,7 +210,10 @@ func runC16Merge(ctx *Ctx) {
 		// on one processor a merge whose differs end at different times crawls (see c16MergeOnce)
 		in.Rows = 256 + r.Intn(150)
 	}
-	ctx.Emit("merge", in, c16MergeRun(in), true, "fault="+in.Fault, fmt.Sprintf("procs=%d", in.Procs))
+	// when the consumer reaches the merge channel, by case index (no draw: earlier cases keep their inputs)
+	in.ConsumerDelayUs = []int{0, 300, 20000}[ctx.Idx%3]
+	ctx.Emit("merge", in, c16MergeRun(in), true, "fault="+in.Fault, fmt.Sprintf("procs=%d", in.Procs),
+		fmt.Sprintf("consumer-delay-us=%d", in.ConsumerDelayUs))
 }
 
 func corpusC16Merge(ctx *Ctx, raw json.RawMessage) {
